@@ -113,6 +113,7 @@ ASSUME \A t \in TsBases : TsVerdict(t).v = "a"
 ASSUME \A t \in TpBases : TpVerdict(t).v = "a"
 ASSUME \A t \in PathBases : IsPath(t)
 
+ASSUME PrintT(<<"FORMS", ToJson([casts |-> CastForms, channels |-> ValueChannels, typed |-> TypedCastForms, dontcare |-> CastDontCare])>>)
 \* ---- spec -> code
 CaseLine(t) == PrintT(<<"CASE", ToJson(Verdicts(t))>>)
 ASSUME Emit => \A k \in 0..(IF Quick THEN 3 ELSE 4) : \A t \in [1..k -> ShortAlpha] : CaseLine(t)
